@@ -75,6 +75,7 @@ impl AppState {
                     has_next = true;
                     backtest.date = *dataset.get_date(new_pos).unwrap();
                 }
+                backtest.pos = new_pos;
 
                 return Some((has_next, fills, orders, order_ids));
             }
